@@ -516,6 +516,10 @@ def gen_trees(seed, count, maxdepth):
                   ("restore_on_err", ("str", b"a")), ("rep", ("str", b"a")), ("choice", [("str", b"a"), ("str", b"b")])):
         stackish += [("seq", [("opt", inner), ("charby", "any")]), ("seq", [("rep", ("seq", [inner, ("str", b"c")])), ("opt", ("charby", "any"))]), ("seq", [("look", False, inner), ("charby", "any")]),
                      ("rule", 3, ("choice", [("seq", [inner, ("str", b"!")]), ("charby", "any")]))]
+    # restore_on_err over a bare chain that completes a token-producing rule and then fails; the failure is absorbed and parsing goes on
+    stackish += [("rule", 3, ("choice", [("restore_on_err", ("chain", [("push", ("rule", 1, ("charby", "alpha"))), ("str", b":"), ("rule", 2, ("charby", "alpha"))])), ("rule", 2, ("rep", ("charby", "alpha")))])),
+                 ("seq", [("opt", ("restore_on_err", ("chain", [("rule", 1, ("charby", "any")), ("push_lit", b"x"), ("str", b"!")]))), ("rule", 2, ("charby", "any"))]),
+                 ("seq", [("rep", ("restore_on_err", ("chain", [("rule", 1, ("str", b"a")), ("drop",)]))), ("opt", ("rule", 2, ("str", b"a")))])]
     stackish += [("pop",), ("peek",),
                  ("rep", ("rule", 1, ("str", b"a"))), ("opt", ("rule", 1, ("seq", [("str", b"a"), ("str", b"b")]))),
                  ("look", False, ("rule", 1, ("str", b"a"))), ("rule", 1, ("seq", [("str", b"a"), ("rep", ("rule", 2, ("range", 0x61, 0x7a)))])),
